@@ -211,6 +211,15 @@ theorem exit_fields (c : Cfg) (s : St) (r : Reason) :
   unfold exit
   split <;> simp_all
 
+theorem taskCreated_eq (c : Cfg) (s : St) : taskCreated c s = s := rfl
+
+theorem arrive_fields (c : Cfg) (s : St) (i : Inp) :
+    (arrive c s i).restarts = s.restarts ∧ (arrive c s i).runs = s.runs ∧ (arrive c s i).shutdown = s.shutdown ∧
+    (arrive c s i).resub ≤ s.resub ∧ (i.reason ≠ .success → (arrive c s i).resub = s.resub) := by
+  have h : arrive c s i = exit c s i.reason := by
+    unfold arrive; cases i.launch <;> rfl
+  rw [h]; exact exit_fields c s i.reason
+
 /-- What one step (task exit + controller decision [+ final state]) guarantees. -/
 structure StepOK (fin : Bool) (c : Cfg) (s : St) (i : Inp) (s' : St) (code : Code) : Prop where
   restarts_mono : s.restarts ≤ s'.restarts
@@ -221,6 +230,7 @@ structure StepOK (fin : Bool) (c : Cfg) (s : St) (i : Inp) (s' : St) (code : Cod
   init_runs : code = .initiated → s'.runs = s.runs + 1
   resub_inv : s.resub ≤ cap → s'.resub ≤ cap
   resub_window : code = .initiated → i.reason = .submissionFailed → s.resub < cap ∧ s'.resub = s.resub + 1
+  resub_keep : i.reason ≠ .success → s.resub ≤ s'.resub
   absorbing : s.shutdown = true → code ≠ .initiated ∧ s'.runs = s.runs ∧ s'.restarts = s.restarts ∧ s'.shutdown = true
   refused_final : fin = true → code ≠ .initiated → s'.shutdown = true
   repeating_once : c.repeating = true → s.restarts ≤ 1 → s'.restarts ≤ 1
@@ -241,23 +251,23 @@ theorem repeating_le_one (c : Cfg) (s : St) (i : Inp) (hc : c.repeating = true) 
 
 theorem step_ok (fin : Bool) (c : Cfg) (s : St) (i : Inp) :
     StepOK fin c s i (step fin c s i).1 (step fin c s i).2 := by
-  have hs := ctrlRestart_sound c (exit c s i.reason) i
-  have hcap := ctrlRestart_cap c (exit c s i.reason) i
-  have hsh := ctrlRestart_shutdown c (exit c s i.reason) i
-  have hrep := repeating_le_one c (exit c s i.reason) i
-  obtain ⟨e1, e2, e3, e4, e5⟩ := exit_fields c s i.reason
-  have hfst : (step fin c s i).1.restarts = (ctrlRestart c (exit c s i.reason) i).1.restarts ∧
-      (step fin c s i).1.runs = (ctrlRestart c (exit c s i.reason) i).1.runs ∧
-      (step fin c s i).1.resub = (ctrlRestart c (exit c s i.reason) i).1.resub ∧
-      (step fin c s i).2 = (ctrlRestart c (exit c s i.reason) i).2 ∧
-      ((ctrlRestart c (exit c s i.reason) i).1.shutdown = true → (step fin c s i).1.shutdown = true) ∧
+  have hs := ctrlRestart_sound c (arrive c s i) i
+  have hcap := ctrlRestart_cap c (arrive c s i) i
+  have hsh := ctrlRestart_shutdown c (arrive c s i) i
+  have hrep := repeating_le_one c (arrive c s i) i
+  obtain ⟨e1, e2, e3, e4, e5⟩ := arrive_fields c s i
+  have hfst : (step fin c s i).1.restarts = (ctrlRestart c (arrive c s i) i).1.restarts ∧
+      (step fin c s i).1.runs = (ctrlRestart c (arrive c s i) i).1.runs ∧
+      (step fin c s i).1.resub = (ctrlRestart c (arrive c s i) i).1.resub ∧
+      (step fin c s i).2 = (ctrlRestart c (arrive c s i) i).2 ∧
+      ((ctrlRestart c (arrive c s i) i).1.shutdown = true → (step fin c s i).1.shutdown = true) ∧
       (fin = true → (step fin c s i).2 ≠ .initiated → (step fin c s i).1.shutdown = true) := by
-    unfold step stepWith
+    unfold step stepWith stepGen
     simp only []
     split <;> simp_all
   obtain ⟨f1, f2, f3, f4, f5, f6⟩ := hfst
   generalize step fin c s i = r at *
-  generalize ctrlRestart c (exit c s i.reason) i = q at *
+  generalize ctrlRestart c (arrive c s i) i = q at *
   have hcode : some q.2 = some Code.initiated ↔ r.2 = .initiated := by rw [f4]; simp
   constructor
   · rw [f1, ← e1]; exact hs.restarts_mono
@@ -286,6 +296,15 @@ theorem step_ok (fin : Bool) (c : Cfg) (s : St) (i : Inp) :
     have h2 := hs.resub_init (hcode.mpr h) hr
     rw [e5 hne] at h1 h2
     exact ⟨h1, by rw [f3, h2]⟩
+  · intro hne
+    rw [f3]
+    by_cases hh : some q.2 = some Code.initiated ∧ i.reason = .submissionFailed
+    · have := hs.resub_init hh.1 hh.2
+      have := e5 hne
+      omega
+    · have := hs.resub_else hh
+      have := e5 hne
+      omega
   · intro h
     have := hsh (by rw [e3]; exact h)
     refine ⟨by rw [f4]; exact this.2, by rw [f2, this.1, e2], by rw [f1, this.1, e1], f5 (by rw [this.1, e3]; exact h)⟩
